@@ -10,6 +10,7 @@ import (
 
 	openfgav1 "github.com/openfga/api/proto/openfga/v1"
 	"google.golang.org/grpc/status"
+	"google.golang.org/protobuf/types/known/wrapperspb"
 
 	"github.com/openfga/openfga/internal/verifsim/gen"
 	"github.com/openfga/openfga/internal/verifsim/harness"
@@ -154,6 +155,10 @@ func c26Gen(runSeed uint64, tier string) *gen.Scenario {
 		sc.Knobs["max_faults"] = 8
 	}
 	sc.Knobs["delay_mode"] = int64(g.Intn(simrt.NumModes))
+	sc.Knobs["ls_page"] = []int64{0, 0, 1, 2}[g.Intn(4)]
+	if g.Chance(0.12) {
+		sc.Knobs["sqlite"] = 1 // the real SQLite backend (its ListStores builds the id filter in SQL)
+	}
 	return sc
 }
 
@@ -224,6 +229,21 @@ func c26Exec(t *testing.T, sc *gen.Scenario, trace bool) *harness.Outcome {
 			e.Out.Infra = "server: " + err.Error()
 			return
 		}
+		// continuation tokens as another party would hold them: one per page boundary of the full listing
+		deleted := map[string]bool{}
+		lsPage := int32(sc.Knob("ls_page", 0))
+		var foreignTokens []string
+		if plain, err := e.NewServer(); err == nil {
+			token := ""
+			for page := 0; page < 8; page++ {
+				resp, err := plain.ListStores(bg, &openfgav1.ListStoresRequest{PageSize: wrapperspb.Int32(1), ContinuationToken: token})
+				if err != nil || resp.GetContinuationToken() == "" {
+					break
+				}
+				token = resp.GetContinuationToken()
+				foreignTokens = append(foreignTokens, token)
+			}
+		}
 		ref := func(obj, rel, client string, ctxt ...rm.Tuple) bool {
 			st := rm.NewState(sc.Model, append(append([]rm.Tuple(nil), grants...), ctxt...))
 			k, _ := st.Check(obj, rel, "application:"+client, nil)
@@ -270,7 +290,7 @@ func c26Exec(t *testing.T, sc *gen.Scenario, trace bool) *harness.Outcome {
 			}
 			before := firedTotal(e.DS.Fired())
 			var callErr error
-			var listed []string
+			var listed, listedForeign []string
 			_, _ = timed(e, rq.Kind, func() (struct{}, error) {
 				switch rq.Kind {
 				case "Check":
@@ -324,15 +344,44 @@ func c26Exec(t *testing.T, sc *gen.Scenario, trace bool) *harness.Outcome {
 					_, callErr = s.DeleteStore(ctx, &openfgav1.DeleteStoreRequest{StoreId: sid})
 					if callErr == nil {
 						// put it back for the following calls
-						_, _ = e.Mem.CreateStore(bg, &openfgav1.Store{Id: sid, Name: fmt.Sprintf("target-%d", k)})
+						// (a backend that keeps the deleted row refuses the id: the store then stays deleted)
+						if _, err := e.Mem.CreateStore(bg, &openfgav1.Store{Id: sid, Name: fmt.Sprintf("target-%d", k)}); err != nil {
+							deleted[sid] = true
+						}
 					}
 				case "CreateStore":
 					_, callErr = s.CreateStore(ctx, &openfgav1.CreateStoreRequest{Name: fmt.Sprintf("created-%d", i)})
 				case "ListStores":
-					var resp *openfgav1.ListStoresResponse
-					resp, callErr = s.ListStores(ctx, &openfgav1.ListStoresRequest{})
-					for _, x := range resp.GetStores() {
-						listed = append(listed, x.GetId())
+					// follow the continuation tokens (page size 0 = the server's default: one page)
+					token := ""
+					for page := 0; page < 20; page++ {
+						var resp *openfgav1.ListStoresResponse
+						req := &openfgav1.ListStoresRequest{ContinuationToken: token}
+						if lsPage > 0 {
+							req.PageSize = wrapperspb.Int32(lsPage)
+						}
+						resp, callErr = s.ListStores(ctx, req)
+						for _, x := range resp.GetStores() {
+							listed = append(listed, x.GetId())
+						}
+						token = resp.GetContinuationToken()
+						if callErr != nil || token == "" {
+							break
+						}
+					}
+					// a continuation token is not bound to a caller: one issued to somebody who sees every
+					// store (the same datastore behind a server without access control) must still only
+					// ever show this caller its own stores
+					if callErr == nil {
+						for _, ft := range foreignTokens {
+							resp, err := s.ListStores(ctx, &openfgav1.ListStoresRequest{PageSize: wrapperspb.Int32(2), ContinuationToken: ft})
+							if err != nil {
+								continue
+							}
+							for _, x := range resp.GetStores() {
+								listedForeign = append(listedForeign, x.GetId())
+							}
+						}
 					}
 				}
 				return struct{}{}, nil
@@ -384,13 +433,20 @@ func c26Exec(t *testing.T, sc *gen.Scenario, trace bool) *harness.Outcome {
 				var exp []string
 				all := append([]string{e.StoreID}, stores...)
 				for _, id := range all {
-					if ref("store:"+id, "can_call_get_store", rq.User) {
+					if !deleted[id] && ref("store:"+id, "can_call_get_store", rq.User) {
 						exp = append(exp, id)
 					}
 				}
 				sort.Strings(exp)
 				sort.Strings(listed)
 				// stores created by earlier CreateStore calls of this run belong to nobody: never listed
+				expSet := toSet(exp)
+				for _, id := range listedForeign {
+					if !expSet[id] && !faultFired {
+						e.Violate("liststores_leaks_with_foreign_token", sig, "%s — presented with a continuation token issued to another caller, ListStores returned %s, which the caller may not get (it may get exactly %v)", desc, e.Run.Canon(id), e.Run.CanonAll(fmt.Sprint(exp)))
+						return
+					}
+				}
 				if strings.Join(exp, ",") != strings.Join(listed, ",") && !faultFired {
 					tag := ""
 					if len(exp) == 0 {
